@@ -32,6 +32,22 @@ def build(tier):
         Ob('O5-insert', ub, 'h_insert', 'insert from an arbitrary bucket state: at most one slot written, neighbours untouched, written unit decodes to the inserted record, replacement policy (same key first, else least valuable, deeper exact same-key entry kept), probe afterwards hits',
            unwind=6, timeout=900, functions=FUNCS[2:5], bounds='arbitrary bucket contents (8 symbolic words); depth in [-8,511]; ply in [0,200]; type in {EXACT,GE,LE}; any move squares/promotion 0..12'),
         Ob('O5b-setbusy', ub, 'h_setbusy', 'setBusy re-stores the same unit with the busy flag', unwind=6, functions=FUNCS[2:5],
-           bounds='arbitrary bucket with a hit for the key; ply in [0,200]; scores whose win/loss class is stable under the ply shift'),
+           bounds='arbitrary bucket with a hit for the key; ply in [0,200]; scores whose win/loss class is stable under the ply shift; contempt 0 (with a non-zero contempt setBusy hands the already xor-ed key to insert, which xors it again: the busy marker then goes to another key - outside C08\'s statement, see DESIGN section 6)'),
     ]
-    return [u, ub], obs
+    # ---- O6: isolation of the tablebase region ("ordinary stores never touch that part"): the C12 obligations O6-region (byte window of TTStorage vs the buckets
+    # getIndex can yield, table sizes up to 2^35 entries) and O6-lanes (byte-lane arithmetic), re-run under this property; quick: one material class per men count
+    import copy
+    from props import C12
+    units12, obs12 = C12.build(tier)
+    extra = []
+    want = ('O6-region@c0', 'O6-region@c1', 'O6-region@c9') if tier == 'quick' else None
+    for o in obs12:
+        if o.oid == 'O6-lanes' or (o.oid.startswith('O6-region') and (want is None or o.oid in want)):
+            o2 = copy.copy(o); obs.append(o2)
+            if o.unit not in extra: extra.append(o.unit)
+            for lem in o.unit.lemmas:
+                for l in obs12:
+                    if l.oid.startswith(lem) and l.oid not in [x.oid for x in obs]:
+                        obs.append(copy.copy(l))
+                        if l.unit not in extra: extra.append(l.unit)
+    return [u, ub] + extra, obs
